@@ -9,6 +9,7 @@ CONSTANTS
 INVARIANT TypeOK
 INVARIANT RefPartial
 INVARIANT ImplAgrees
+INVARIANT DeviationsExplained
 INVARIANT NoMatchMultiDead
 INVARIANT StepsAreImplCall
 CHECK_DEADLOCK FALSE
